@@ -8,6 +8,7 @@ mkdir -p target evidence replays
 cargo build --release --offline --manifest-path harness/Cargo.toml --target-dir target
 cargo build --profile chk --offline --manifest-path harness/Cargo.toml --target-dir target
 cargo build --release --offline --manifest-path /repo/Cargo.toml --target-dir target --bin solstat
+cargo build --offline --manifest-path /repo/Cargo.toml --target-dir target --bin solstat   # unoptimised build, used by ./check C04
 # ThreadSanitizer build of the C15 sanitizer workload (nightly, build-std); used by ./check C15 in both tiers
 ( cd harness-nightly && RUSTFLAGS="-Zsanitizer=thread" cargo +nightly build -Zbuild-std --target x86_64-unknown-linux-gnu --release --offline --target-dir ../target/tsan ) || echo "warning: ThreadSanitizer build failed; ./check C15 will report INCONCLUSIVE"
 echo setup ok
